@@ -62,6 +62,13 @@ def shard_a(s, ns, tier, seed):
                 part.ok(core.h64(b))
             else:
                 part.n += 1
+                if r[2]:
+                    # name the site by what the candidate decodes to (stable whatever line produced it first)
+                    try:
+                        mnem = R.parse_intel(r[2], source='mx')[0].mnemo
+                    except R.Unparsable:
+                        mnem = r[2].split()[0]
+                    kd = c02.kinds_of_line(r[2])
                 part.violation('dir=asm->dis->asm mnemo=%s ops=%s step=%s' % (mnem, kd, r[0]), 'line %r, candidate %s: %s' % (line, b.hex(), r[1]),
                                {'line': line, 'bytes': b.hex()}, size=len(line))
     with core.quiet_stdout():
